@@ -109,6 +109,27 @@ CHECKS = {
             "DESIGN.md 4/C20"),
 }
 
+# additions of waves 11-12 and of the coverage diagnostic, appended to the level texts above
+EXTRA = {
+    "C02": " The scripted answer strings also run under a caller-supplied step controller (adaptation_fn hook).",
+    "C03": " Section 'answers' (E2 over environment answers): the integrator's answer 'I took less than you asked' is scripted onto every call of a run in turn and onto pairs of calls (real integrator behind a scripted wrapper, y' = const keeps every oracle exact); the same runs with the progress display switched on (eta=True).",
+    "C05": " Tolerances also reach the system through its setters (before / after the method is chosen, after a loose run and a reset).",
+    "C06": " For Richardson wrappers every piece's end slopes are compared with f at the piece's own end points.",
+    "C07": " Clause (g): events_dict holds, per function, exactly that function's tuples of the events list.",
+    "C09": " Configurations with Richardson wrappers of adaptive pairs and an FSAL pair; for wrappers the dense solution between grid points is compared with the closed form.",
+    "C10": " Cells that reuse one integrator object also give it a first call at another scale (1e8 / 1e-8 times the evaluation states).",
+    "C11": " Real steps also on 2x2 and 2x3 matrix states (an ensemble of block problems), column by column against R(z).",
+    "C12": " On the set-ups with dense output every site additionally raises 14 exception classes users really raise (ValueError, LinAlgError, arithmetic errors, RuntimeError, ..., the library's own FailedToMeetTolerances); clause 'swallowed' (the call was reached, nothing propagated).",
+    "C14": " Section 'options': return_interval, verbose, tol below eps (must not change the answer), one array-valued function (plain / mask-accepting with zero-filled or untouched masked entries), bounds shared by a list of functions.",
+    "C15": " Cells with the unknowns confined to a box (var_bounds, three boxes) and with verbose output, on both dispatch paths and for the solvers called directly.",
+    "C16": " Operations include set_jac_base_order; a configuration with a column-shaped (3,1) state checks the layout of every answer; finite-difference cells for two second-order systems along a 25-point lattice.",
+    "C18": " Cells with the progress display (show_prog_bar) with and without max_step / first_step / t_eval.",
+    "C19": " Every multi-call history also with lookups (scalar, array, slice, index) made between its calls.",
+}
+for _k, _v in EXTRA.items():
+    _c = CHECKS[_k]
+    CHECKS[_k] = (_c[0], _c[1], _c[2] + _v, _c[3], _c[4])
+
 NOT_YET = "check not built yet in this session (work in progress; see DESIGN.md section 4 for the planned bounded-exhaustive design)"
 
 
